@@ -180,7 +180,7 @@ func c12Compare(x *explore.Ctx, n ref.Node, input interface{}) {
 
 // ---- signatures ---------------------------------------------------------------
 
-var c12Types = []string{"n", "s", "b", "a", "o", "f", "j", "x", "(ns)", "(sb)", "(sa)", "(ao)", "a<n>", "a<s>"}
+var c12Types = []string{"n", "s", "b", "a", "o", "f", "j", "x", "l", "(ns)", "(sb)", "(sa)", "(ao)", "(ln)", "a<n>", "a<s>", "a<l>"}
 
 type c12Arg struct {
 	src string
@@ -197,6 +197,8 @@ var c12Args = []c12Arg{
 	{`{"k":1}`, func() ref.Node { return robj("k", rnum(1)) }},
 	{"$sum", func() ref.Node { return rvar("sum") }},
 	{"nothing", func() ref.Node { return rp("nothing") }},
+	{"null", func() ref.Node { return &ref.Lit{Val: nil, Src: "null"} }},
+	{"[null]", func() ref.Node { return rarr(&ref.Lit{Val: nil, Src: "null"}) }},
 }
 
 func init() {
@@ -213,7 +215,7 @@ func init() {
 		Rule: "a case is one generated program on a fixed document; oracle: the reference interpreter (frame chain, closures capturing frame and context item, signature fitting with ? + - options, unions and array subtypes, " +
 			"placeholder substitution in order, chain laws) predicts value / no value / error class; non-trivial when a value is returned",
 		Assumptions: []string{
-			"'-' is generated on the first parameter only, '?' only on trailing parameters, '+' only on the last; null arguments under typed parameters are not generated (statement silent)",
+			"'-' is generated on the first parameter only, '?' only on trailing parameters, '+' only on the last",
 			"blocks nested deeper than 2, signatures with more than 3 parameters and nested subtypes are outside the bound",
 		},
 		Phases: []explore.Phase{
@@ -266,7 +268,11 @@ func init() {
 					c.Done()
 					return
 				}
-				nArgs := c.Choose(5)
+				maxArgs := 4
+				if np >= 2 && !x.Thorough() {
+					maxArgs = 3 // quick tier: two-parameter signatures against argument lists of length 0..3
+				}
+				nArgs := c.Choose(maxArgs + 1)
 				args := make([]ref.Node, nArgs)
 				for i := range args {
 					args[i] = c12Args[c.Choose(len(c12Args))].val()
@@ -388,6 +394,8 @@ func init() {
 						return rassign("g", &ref.Paren{Exprs: []ref.Node{rassign("a", rnum(10)), rlambda(rarr(rvar("x"), rvar("a")))}})
 					case 4:
 						return rassign("g", rcall("mk", rnum(20)))
+					case 8:
+						return rassign("g", &ref.Partial{Fn: rvar("append"), Args: []ref.Node{nil, rarr(rvar("x"))}}) // the bound argument is fixed now
 					case 5:
 						return rassign("r1", &ref.Call{Fn: rvar("g")})
 					case 6:
@@ -398,7 +406,7 @@ func init() {
 				}
 				stmts := []ref.Node{mk}
 				for i := 0; i < n; i++ {
-					stmts = append(stmts, stmt(c.Choose(8)))
+					stmts = append(stmts, stmt(c.Choose(9)))
 				}
 				c.Done()
 				stmts = append(stmts, rarr(rarr(rvar("r1")), rarr(rvar("r2")), rarr(&ref.Call{Fn: rvar("g")}), rvar("x")))
